@@ -650,6 +650,10 @@ def matches_known(k, fname, ops, line, txt):
         if (b - a) % M32 != (1 << 31):
             return False
         return txt.startswith("! FAIL later") and "," not in txt.split(" ")[2]
+    if cls == "session-error-drops-results":
+        # K2b: only the two-partition oracle, only when BOTH partitions report the same error and differ solely in what was
+        # delivered before it (results of messages completed in the same call as the failing one are dropped with the Err)
+        return fname in ("server", "client") and line.startswith("!sess.split") and "error-partitions-differ-in-delivered-results" in txt
     if cls == "session-after-input-error":
         # K2: only the decodability oracle, only after a handle_input call of this history returned Err
         return fname in ("server", "client") and line.startswith("!sess.decodable") and "after-input-error" in txt
